@@ -86,7 +86,13 @@ func execOp(s *exec.State, ev abs.V) {
 		}
 		s.UnmarshalRef(ev["entry"].(string), abs.I(ev["b"]), h, dh)
 	case "datagram":
-		s.Datagram(abs.I(ev["b"]), h)
+		var parts []int
+		if pl, ok := ev["parts"]; ok {
+			for _, p := range abs.List(pl) {
+				parts = append(parts, abs.I(p))
+			}
+		}
+		s.DatagramParts(abs.I(ev["b"]), h, parts)
 	case "udec":
 		s.UnitDecode(ev["entry"].(string), abs.I(ev["b"]))
 	case "uenc":
